@@ -18,4 +18,66 @@ PROPS = {
                          "PERCENTILE (hdrhistogram) and unary math functions are outside the theorems (noPtile hypothesis; uninterpreted functions)"],
         "assumptions": ["expressions are those accepted by Validate() and reachable from the SQL grammar (Ex.valid)"],
     },
+    "C09": {
+        "lean": ["ZenoModel.Props.C09"],
+        "theorems": ["cmpVal_spec", "lessP_eq_lexLt", "less_eq_lexLt", "less_no_panic",
+                     "lexLt_irrefl", "lexLt_asymm", "lexLt_trans", "lexLt_incomp_trans", "lexLt_strictWeak",
+                     "less_strictWeak", "sort_perm", "sort_sorted",
+                     "limit_offset_slice", "limit_at_most", "limit_offset_sublist",
+                     "query_spec", "query_unordered", "lessBuggy_violates_spec"],
+        "engines": [
+            # exh: small-scope enumeration, n is ignored (quick: key lists of length <= 2, thorough: <= 3)
+            {"name": "sortlim", "mode": "exh", "n_quick": 0, "n_thorough": 0, "n_search": 0, "search": False},
+            {"name": "sortlim", "mode": "core", "n_quick": 6000, "n_thorough": 600000, "n_search": 20000},
+            # db: n = number of tables, each queried with 3-6 ORDER BY/LIMIT combinations (x3 queries each)
+            {"name": "sortlim", "mode": "db", "n_quick": 120, "n_thorough": 3000, "n_search": 60},
+        ],
+        "trusted_base": [TB_FLOAT,
+                         "Go's sort.Sort returns a permutation that is non-decreasing w.r.t. Less whenever Less is a strict weak order (premise proved: less_strictWeak); the model's own insertion sort is proved (sort_perm, sort_sorted)",
+                         "FlatRow.TS / time.Time as unbounded Int nanoseconds; the int64 idx counters of limit/offset as Nat (no wrap); context deadlines and callback errors not modelled (guard.Proceed() = true)",
+                         "bytemap.Get returns the stored dynamic value or nil; string order = Lean String order (equal to Go's byte order on valid UTF-8)",
+                         "sqlparser / sql.applyOrderBy / applyLimit only sampled end-to-end by the db mode of the sortlim engine (grammar: LIMIT [offset,] rowcount)"],
+        "assumptions": ["every ORDER BY column holds, over the rows of the result, nil or values of one dynamic Go type other than uint (Comparable); otherwise core.compare panics (modelled: lessP = none, tied by the engine)",
+                        "LIMIT 0 / OFFSET 0 mean 'clause absent' (planner: `if query.Limit > 0`)"],
+    },
+    "C19": {
+        "lean": ["ZenoModel.Props.C19"],
+        "theorems": ["rpc_authorize_iff", "rpc_refuses_without_password", "rpc_disclosing_refused",
+                     "rpc_right_password_served", "all_disclosing_handlers_guarded", "web_refuses",
+                     "web_data_route_refuses", "expired_cookie_refused", "forged_cookie_refused",
+                     "no_credential_refused", "wrong_static_token_refused", "fresh_session_served",
+                     "all_data_routes_guarded", "d10_witness_unauthenticated_registration_served",
+                     "d11_witness_expired_cookie_accepted"],
+        "engines": [
+            # n = number of rounds; every round is the complete credential lattice with fresh secrets
+            {"name": "auth", "n_quick": 2, "n_thorough": 25, "n_search": 1, "timeout_quick": 300},
+        ],
+        "trusted_base": ["gRPC metadata transport, net/http, gorilla/mux first-match routing and gorilla/securecookie (a value decodes iff it was sealed with the same keys under the same name and is younger than its max age) are trusted libraries",
+                         "tools/extract/auth.go (go/ast, unverified): guard-before-use is statement order at the top level of the handler body, not a control-flow dominance analysis",
+                         "GitHub is unreachable in the sandbox: userInOrg is only ever observed failing; the re-verification branch (orgVerified = true) is modelled, not exercised",
+                         "rpcserver.DB.Follow / RegisterQueryHandler are answered by a recording stand-in behind the rpcserver.DB interface (Query and InsertRaw reach a real embedded zenodb)"],
+        "assumptions": ["a session cookie that decodes was issued by this server's /oauth/code flow (the signing keys are secret); how that flow establishes org membership is outside C19's model",
+                        "time is compared as integers; the instant expiration == now is modelled (refused unless re-verified) but not exercised against the wall clock"],
+    },
+    "C20": {
+        "lean": ["ZenoModel.Props.C20"],
+        "theorems": ["dec_enc", "dec_enc_exact", "second_hop_identity", "update_preserved", "merge_preserved",
+                     "get_preserved", "shape_preserved", "facts_match_model", "enc_follows_facts", "facts_cover",
+                     "ignorable_is_minimal", "ext_ids_distinct", "custom_codecs_symmetric",
+                     "custom_encoders_keep_ext_header", "registries_match", "msg_fields_cover"],
+        "engines": [
+            {"name": "codec", "mode": "expr", "n_quick": 4000, "n_thorough": 200000, "n_search": 6000},
+            {"name": "codec", "mode": "msg", "n_quick": 3000, "n_thorough": 100000, "n_search": 3000},
+            {"name": "codec", "mode": "e2e", "n_quick": 80, "n_thorough": 3000, "n_search": 60,
+             "timeout_quick": 300, "timeout_thorough": 1500},
+        ],
+        "trusted_base": [TB_FLOAT,
+                         "msgpack (github.com/getlantern/msgpack): reflection encoding of exported struct fields, ext framing, "
+                         "generic decoding into map[string]interface{}; modelled as the Wire tree and sampled by comparing the real bytes with the model's enc",
+                         "goexpr's own codec for IF conditions (ext ids 70-104), snappy framing and gRPC transport: external, exercised end to end only",
+                         "field sets, ext ids, decoder assignments and registry keys regenerated from /repo by tools/extract/codec.go (go/ast, unverified extractor)",
+                         "closure identity in the harness is read through reflect/unsafe (func value word compared with the registries' closures)"],
+        "assumptions": ["expression objects are built by the package constructors (GEx.linked: every closure field holds the registry's closure for the node's name; ptileOptimized embeds a copy of the *ptile it wraps)",
+                        "Validate() is not an observer: binaryExpr.DeAggregated is written but not read back (validate_not_preserved); no caller validates a decoded expression"],
+    },
 }
